@@ -340,6 +340,14 @@ def configs(rng, quick, terminals):
                 out.append({"shape": list(shape), "h": h, "method": method, "l1": rng.choice(l1s), "mob": rng.choice(mobs), "opts": opts,
                             "mass": rng.choice(["compact", "single", "dense"]), "mseed": rng.randrange(10 ** 6), "fault": None,
                             "adaptive": False, "weight": None})
+    # iteration budgets at the lower end: none at all (the result is the Darcy initial guess), one, two (the stopping test is
+    # only evaluated from the third iteration on)
+    for method in ("newton", "bregman"):
+        for ni in (0, 1, 2):
+            form, ls = rng.choice(solvers)
+            out.append({"shape": [3, 4], "h": [0.5, 0.25], "method": method, "l1": rng.choice(l1s), "mob": rng.choice(mobs),
+                        "opts": {"num_iter": ni, "formulation": form, "linear_solver": ls, "L": 1.0 if method == "bregman" else 1e-2},
+                        "mass": "dense", "mseed": rng.randrange(10 ** 6), "fault": None, "adaptive": False, "weight": None, "second": ni == 0})
     # the recorded instance of that defect (thorough tier, seed 0), ending right after the perturbed iterate
     for ni, fault in ((2, None), (6, 2)):
         out.append({"shape": [1, 5], "h": [0.1, 0.3], "method": "newton", "l1": "CONSTANT_SUBCELL_PROJECTION", "mob": "CELL_BASED",
@@ -359,6 +367,9 @@ def run(ck, replay=None):
     reg2 = ck.tlc("SolverLoop", "SolverLoop_postignored.cfg", workers=1, expect_ok=False, label="regression-model")
     if not reg2.violated:
         raise MachineryError("SolverLoop no longer rejects a status that ignores a failed post-loop step (vacuity guard)")
+    reg3 = ck.tlc("SolverLoop", "SolverLoop_flagkept.cfg", workers=1, expect_ok=False, label="regression-model")
+    if not ({"ConvergedOnlyIfCriteria", "FaultFlagged"} & set(reg3.violated)):
+        raise MachineryError("SolverLoop no longer rejects a status inherited from an earlier run on the same object (vacuity guard)")
     darsia = import_darsia()
     rng = random.Random(ck.seed)
     quick = ck.tier == "quick"
